@@ -571,6 +571,22 @@ class C07Structure(Monitor):
                     return
                 seen.setdefault(f, did)
 
+    def on_filter(self, f, before, after, tree):
+        # coverage: LevelLimit had to cut on a level and, among what it kept there, candidates of different parents tie exactly
+        if type(f).__name__ != "LevelLimit":
+            return
+        levels = {d.level for d in before}
+        for lvl in levels:
+            nb = sum(len(inds) for d, inds in before.items() if d.level == lvl)
+            kept = [(float(i.fitness), d.id) for d, c in after.items() if d.level == lvl for i in c.individuals]
+            if len(kept) >= 2 and nb > len(kept):
+                seen = {}
+                for fv, did in kept:
+                    if fv in seen and seen[fv] != did:
+                        self.cov("level_limit_cut_and_kept_tied_candidates_of_different_parents")
+                        return
+                    seen.setdefault(fv, did)
+
     def on_sprout_seeds(self, tree, seeds):
         self.pending = []
         gen_kind = self.ctx.desc["sprout"].get("gen", {}).get("k")
